@@ -13,7 +13,7 @@ F = lambda *p: ("f", tuple(p))
 OP = lambda op, a, b: ("op", op, a, b)
 
 SLOT_TYPES = ["u8", "i8", "u16", "i16be", "bcd8", "u32", "enum8", "inner", "dyn", "pars", "bitsT", "anon",
-              "arr_u8x2", "arr_auto", "arr_i16x2", "arr_inner", "f32", "bcd16", "u64", "senum8", "arr_bits", "i32", "zero_tail", "arr_u24x2", "arr_tri", "enumk8"]
+              "arr_u8x2", "arr_auto", "arr_i16x2", "arr_inner", "f32", "bcd16", "u64", "senum8", "arr_bits", "i32", "zero_tail", "arr_u24x2", "arr_tri", "enumk8", "f64"]
 STARTS = ["const", "off", "next", "next+1", "off+1", "overlap", "prevval", "2*off+1", "fwdval", "off-2"]
 CONDS = ["always", "tag==1", "tag==2", "off<3", "flg", "flg&&tag==1", "flg||tag==1", "present_prev", "tag==5",
          "param", "prev==7", "tag!=0&&len==1", "prev==7&&tag==1", "tag==1&&prev==7", "prev==7||tag==1",
@@ -27,7 +27,7 @@ PARAMS = ["none", "uint4", "int4", "enum"]
 
 DEFAULT_SIZE = {"u8": 1, "i8": 1, "u16": 2, "i16be": 2, "bcd8": 1, "u32": 4, "enum8": 1, "inner": 2, "dyn": 3, "pars": 2,
                 "bitsT": 1, "anon": 1, "arr_u8x2": 2, "arr_auto": None, "arr_i16x2": 4, "arr_inner": 4, "f32": 4,
-                "bcd16": 2, "u64": 8, "senum8": 1, "arr_bits": 2, "i32": 4, "zero_tail": 0, "arr_u24x2": 6, "arr_tri": 6, "enumk8": 1}
+                "bcd16": 2, "u64": 8, "senum8": 1, "arr_bits": 2, "i32": 4, "zero_tail": 0, "arr_u24x2": 6, "arr_tri": 6, "enumk8": 1, "f64": 8}
 INT_SCALARS = {"u8", "i8", "u16", "i16be", "bcd8", "u32", "bcd16", "u64", "i32"}
 
 
@@ -143,7 +143,7 @@ def program(ch, menu=None):
             typ = ("Bcd", None)
         elif st in ("u32", "u64"):
             typ = ("UInt", None)
-        elif st == "f32":
+        elif st in ("f32", "f64"):
             typ = ("Float", None)
         elif st == "enum8":
             typ = ("enum", PX + "Kind", None)
@@ -373,6 +373,7 @@ def program(ch, menu=None):
     tuples = {"none": [()], "uint4": [(0,), (1,), (2,), (15,)], "int4": [(-8,), (-1,), (0,), (1,), (7,)],
               "enum": [(0,), (1,), (3,)]}[ptype]
     prog = Program(module, "Main", tuples, None, feats)
+    prog.nominal_size = pos          # end of the last slot when every field sits at its default place
     prog.alphabets = alphabets_for(prog)
     return prog
 
@@ -431,6 +432,8 @@ def alphabets_for(prog, cap=4096, max_len=10):
     shrinking the highest payload positions first (deterministic; never the control byte)."""
     main = prog.module.struct(prog.root)
     refs = referenced_names(main)
+    # a program with a wide slot (u64, f64) must still have complete buffers: lengths reach nominal size + 1
+    max_len = max(max_len, min(getattr(prog, "nominal_size", 0) + 2, 14))
     vals = [0]
     for name, shift, width in (("tag", 0, 2), ("len", 2, 2), ("off", 4, 3), ("flg", 7, 1)):
         if name in refs or ("$present:" + name) in refs:
